@@ -47,6 +47,12 @@ def programs(rng, tier):
         t = partial_table(rng, rng.choice(CONNS))
         P.add(["binlim", str(rng.randrange(0, 12)), t, bdd_sx(a), bdd_sx(b)])
         P.add(["drybin", str(rng.randrange(0, 12)), t, bdd_sx(a), bdd_sx(b)])
+    return progs + P.progs + cmp_implies_programs(rng, tier)
+
+
+def cmp_implies_programs(rng, tier):
+    """operand pairs for cmp_implies (shared with C18): small exhaustive-ish pairs, medium comparable pairs of different shape"""
+    P = Prog()
     # cmp_implies
     for _ in range(400 if tier == "quick" else 10000):
         nv = rng.choice([0, 1, 2, 3, 4])
@@ -157,7 +163,7 @@ def programs(rng, tier):
         if rng.random() < 0.5:
             a, b = b, a
         P.add(["cmp_implies", bdd_sx(a), bdd_sx(b)])
-    return progs + P.progs
+    return P.progs
 
 
 _full = {}
